@@ -79,7 +79,7 @@ def gen_case(rng, cfg, idx):
         c = C05.gen_case(rng, {"nstmts": cfg["nstmts"], "two_epoch": "random"}, idx)
         return None if c is None else {"kind": "hist", "prog": c["prog"], "L": c["L"]}
     fn = "gru" if idx % 48 == 32 else NOGRU[(idx // 3) % len(NOGRU)]   # gru (numba JIT) only on indices that land on one shard
-    c = C02.gen_single(rng, fn)
+    c = C02.gen_single(rng, fn, k=rng.randrange(6))
     if c is None:
         return None
     prog = c["prog"]
@@ -87,6 +87,10 @@ def gen_case(rng, cfg, idx):
         s = prog[-1]["seed"]
         prog = prog[:-1] + [{"k": "leaf", "out": "__g", "kind": "array", "dtype": s[1], "shape": s[2], "data": s[3], "layout": "C"},
                             {"k": "backward", "tgt": prog[-1]["tgt"], "seed": ["r", "__g"]}]
+    if rng.random() < 0.25:
+        # the whole program with the memory guard switched off: the library can then write into operand arrays unhindered, so nothing but
+        # its own discipline keeps inputs intact
+        prog = [dict(st, guard_off=True) for st in prog]
     return {"kind": "op:" + fn, "prog": prog, "L": c["L"]}
 
 
